@@ -43,18 +43,77 @@ for l in _INT:
     for r in _INT:
         for op in ("add", "sub", "mul", "div", "mod"):
             slow = (op in ("div", "mul") and "i64" in (l, r))
-            tiers = Q if ((l, r) in _QUICK_PAIRS and not (op == "div" and (l, r) == ("i64", "i64"))) else T
+            tiers = Q if ((l, r) in _QUICK_PAIRS and not (op == "div" and "i64" in (l, r) and (l, r) != ("u8", "i64"))) else T
             add(f"C06.a/{op}/{l}_{r}", "C06", "kani", tiers,
                 f"{_OPNAME[op]}<{l},{r}>::perform_checked == exact i128 result or error flag; no panic; no spurious flag",
                 [f"engine::operators::numeric_operators::{_OPNAME[op]}<{l},{r}> as CheckedBinaryOp::perform_checked"],
                 bounds=f"all {l} x all {r} operands (full width, no unwinding needed: loop-free)",
                 harness=f"c06a__{op}__{l}_{r}", timeout=600 if slow else 120)
-for nm, l, r in (("i64_i64_rlt256", "i64", "i64"), ("i64_u8", "i64", "u8"), ("u32_u8", "u32", "u8")):
-    add(f"C06.a/divmod_exact/{nm}", "C06", "kani", Q,
-        f"Division/Modulo<{l},{r}>: q*r + m == l exactly for |r| < 256",
-        [f"numeric_operators::Division<{l},{r}>::perform_checked", f"numeric_operators::Modulo<{l},{r}>::perform_checked"],
-        bounds=f"all {l} dividends, divisors 0 < |r| < 256", harness=f"c06a__divmod_exact__{nm}", timeout=300)
+for nm, l, r, tiers in (("u8_u8", "u8", "u8", Q), ("u8_i64", "u8", "i64", Q), ("u16_u16", "u16", "u16", T)):
+    add(f"C06.a/mod_exact/{nm}", "C06", "kani", tiers,
+        f"Modulo<{l},{r}>::perform_checked returns exactly the remainder of truncated division (witness quotient q: q*r + m == l, |m|<|r|, sign(m)=sign(l))",
+        [f"numeric_operators::Modulo<{l},{r}>::perform_checked"],
+        bounds=f"all {l} dividends x all non-zero {r} divisors; 32/64-bit dividends: remainder exactness outside the claim (SAT does not finish in 400 s), only |m|<|r|, sign and |m|<=|l| are decided there (C06.a/mod/*)",
+        harness=f"c06a__mod_exact__{nm}", timeout=600)
 
+# -------------------------------------------------------------------------------------------------
+# C03.a comparison kernels, C04.a/b aggregation kernels, C05.a/b comparators + heap, C01.a bitmaps (Kani)
+# -------------------------------------------------------------------------------------------------
+_CMP_PAIRS = [("u8", "u8"), ("u16", "u16"), ("u32", "u32"), ("i64", "i64"), ("u8", "u16"), ("u8", "u32"), ("u8", "i64"),
+              ("u16", "u8"), ("u16", "u32"), ("u16", "i64"), ("u32", "u8"), ("u32", "u16"), ("u32", "i64"),
+              ("i64", "u8"), ("i64", "u16"), ("i64", "u32")]
+for l, r in _CMP_PAIRS:
+    add(f"C03.a/cmp/{l}_{r}", "C03", "kani", Q,
+        f"LessThan/LessThanEquals/Equals/NotEquals::perform({l},{r}) == mathematical comparison of the widened operands",
+        ["comparison_operators::{LessThan,LessThanEquals,Equals,NotEquals} as BinaryOp::perform", f"comparison_operators::Widen<{r}> for {l}"],
+        bounds=f"all {l} x all {r}", harness=f"c03a__cmp__{l}_{r}", timeout=120)
+add("C03.a/cmp/of64", "C03", "kani", Q, "float comparison kernels == numeric order with all NaNs equal and above +inf (the engine's total order)",
+    ["comparison_operators::{LessThan,..} as BinaryOp<of64,of64,u8>::perform"], bounds="all f64 bit patterns", harness="c03a__cmp__of64", timeout=120)
+add("C03.a/bool", "C03", "kani", Q, "BoolAnd/BoolOr on predicate bytes", ["comparison_operators::{BoolAnd,BoolOr}::perform"],
+    bounds="operands in {0,1} (what the comparison kernels produce)", harness="c03a__bool_and_or", timeout=120,
+    assumptions=["predicate bytes are 0/1"])
+for t in ("u8", "u16", "u32", "i64"):
+    add(f"C04.a/sum_checked/{t}", "C04", "kani", Q, f"SumI64::accumulate_checked/combine_checked over {t} == exact i128 sum or overflow flag; unit == 0",
+        ["aggregate::SumI64 as CheckedAggregator::{accumulate_checked,combine_checked}"], bounds=f"all i64 accumulators x all {t}",
+        harness=f"c04a__sum_checked__{t}", timeout=120)
+    add(f"C04.a/minmax/{t}", "C04", "kani", Q, f"MaxI64/MinI64 accumulate/combine over {t} == max/min; unit is the identity",
+        ["aggregate::{MaxI64,MinI64} as Aggregator::{unit,accumulate,combine}"], bounds=f"all i64 accumulators x all {t}",
+        harness=f"c04a__minmax__{t}", timeout=120)
+    # the same kernels decide SUM for C06
+    add(f"C06.c/sum_checked/{t}", "C06", "kani", Q if t in ("u8", "i64") else T, f"SumI64 checked accumulation over {t} never wraps silently",
+        ["aggregate::SumI64 as CheckedAggregator::{accumulate_checked,combine_checked}"], bounds=f"all i64 accumulators x all {t}",
+        harness=f"c04a__sum_checked__{t}", timeout=120)
+add("C04.a/count", "C04", "kani", Q, "Count::accumulate/combine add exactly one / the two counts", ["aggregate::Count as Aggregator"],
+    bounds="counters below 2^32-1 (a partition of 4G rows is outside the claim)", harness="c04a__count", timeout=120)
+add("C04.a/minmax_f64", "C04", "kani", Q, "MaxF64/MinF64/SumF64 accumulate == IEEE max/min/sum; unit is the identity for every non-NaN float incl. +-inf",
+    ["aggregate::{MaxF64,MinF64,SumF64} as Aggregator"], bounds="all non-NaN f64 (NaN is the in-band NULL marker)", harness="c04a__minmax_f64", timeout=300)
+for nm, d in (("i64", "SUM/MAX/MIN of two partials with i64::MAX as in-band NULL: NULL is neutral, otherwise exact or QueryError::Overflow"),
+              ("count", "COUNT partials add exactly"), ("f64", "float MAX/MIN/SUM partials with the NULL NaN neutral")):
+    add(f"C04.b/combine_{nm}", "C04", "kani", Q, "merge_aggregate Combinable::combine: " + d, ["merge_aggregate::Combinable::combine"],
+        bounds={"i64": "all i64 x i64", "count": "0 <= counts < 2^62", "f64": "non-NaN floats or the NULL marker; finite partials for SUM"}[nm],
+        harness=f"c04b__combine_{nm}", timeout=300, stubs=["alloc::fmt::format -> empty String"])
+add("C06.c/combine_i64", "C06", "kani", Q, "cross-partition SUM combine is exact or QueryError::Overflow", ["merge_aggregate::Combinable<i64>::combine"],
+    bounds="all i64 x i64", harness="c04b__combine_i64", timeout=300, stubs=["alloc::fmt::format -> empty String"])
+for t in ("u8", "u16", "u32", "u64", "i64"):
+    add(f"C05.a/comparator/{t}", "C05", "kani", Q, f"Comparator<{t}> for CmpLessThan/CmpGreaterThan: cmp, cmp_eq, ordering agree with </<=/cmp and its reverse",
+        [f"comparator::<impl Comparator<{t}> for CmpLessThan|CmpGreaterThan>"], bounds=f"all {t} pairs", harness=f"c05a__comparator__{t}", timeout=120)
+add("C05.a/comparator/of64", "C05", "kani", Q, "Comparator<of64>: total order, NaN (in-band NULL) last ascending / first descending",
+    ["comparator::<impl Comparator<OrderedFloat<f64>> ..>"], bounds="all f64 bit patterns", harness="c05a__comparator__of64", timeout=120)
+add("C05.a/comparator/opt_str", "C05", "kani", Q, "Comparator<Option<&str>>: byte order, NULL after every value ascending, descending is the exact reverse; cmp/cmp_eq/ordering consistent",
+    ["comparator::<impl Comparator<Option<&str>> ..>"], bounds="ASCII strings of <= 2 bytes, NULL or present (unwind 4)", harness="c05a__comparator__opt_str", timeout=300)
+add("C05.a/comparator/str", "C05", "kani", Q, "Comparator<&str>: byte order and its reverse", ["comparator::<impl Comparator<&str> ..>"],
+    bounds="ASCII strings of <= 2 bytes (unwind 4)", harness="c05a__comparator__str", timeout=300)
+add("C05.a/comparator/val", "C05", "kani", Q, "Comparator<Val>: descending is the reverse of ascending; cmp/cmp_eq consistent with ordering; antisymmetric; NULL last ascending",
+    ["comparator::<impl Comparator<Val> ..>"], bounds="Val in {Null, Integer(any), Float(any bits), Bool}; Str outside (delegates to str::cmp)", harness="c05a__comparator__val", timeout=300)
+for nm, d, tiers in (("u8_lt_2", "2", Q), ("u8_lt_3", "3", Q), ("u8_gt_3", "3", Q), ("u8_lt_7", "7", Q), ("u8_gt_6", "6", T)):
+    add(f"C05.b/heap_replace/{nm}", "C05", "kani", tiers, "heap_replace from an arbitrary valid heap keeps the heap property, the multiset (old - root + new) and the key/row-index pairing",
+        ["top_n::heap_replace"], bounds=f"heap of {d} u8 keys, arbitrary contents satisfying the heap invariant, arbitrary new key sorting before the root",
+        harness=f"c05b__heap_replace__{nm}", timeout=300)
+add("C01.a/bitvec_set", "C01", "kani", Q, "BitVecMut::set / BitVec::is_set on Vec<u8> and [u8]: bit set, others untouched, growth exact, out-of-range reads false",
+    ["bitvec::<impl BitVecMut for Vec<u8>>::set", "bitvec::<impl BitVec for Vec<u8>|[u8]>::is_set"], bounds="bitmaps of 0..2 bytes, set index < 32, probe index < 40 (unwind 6)",
+    harness="c01a__bitvec_set", timeout=300)
+add("C01.a/bitvec_unset", "C01", "kani", Q, "BitVecMut::unset clears exactly one bit", ["bitvec::<impl BitVecMut for Vec<u8>>::unset"],
+    bounds="bitmaps of 0..2 bytes, indices < 40", harness="c01a__bitvec_unset", timeout=300)
 
 # -------------------------------------------------------------------------------------------------
 # mirsym obligations
